@@ -284,7 +284,24 @@ def run_one_way(seed, tape, opts):
     the sides must end up on a new shared connection (C16's one_way regime,
     judged here for convergence)."""
     from checks import c16
-    res = c16.run_one(seed, tape, dict(opts, regime="one_way"))
+    from simlib.core import HarnessError
+    try:
+        res = c16.run_one(seed, tape, dict(opts, regime="one_way"))
+    except HarnessError as e:
+        if "no connection" not in str(e):
+            raise
+        # a clean start (no fault yet) that never produced a shared
+        # connection is this property's business
+        from simlib.core import REACTOR  # noqa: F401
+        return {"violation": {"key": "C11.no_convergence", "clause": "the two "
+                              "sides agree on roles and converge on a shared "
+                              "connection", "detail": "clean start, both "
+                              "sides dilate and can reach each other, yet no "
+                              "shared connection (%s)" % e},
+                "nontrivial": False, "digest": "no-connection-%d" % seed,
+                "trace": None, "stats": {"steps": 0, "sim_s": 0.0,
+                                         "notes": {}},
+                "sample": {"seed": seed, "one_way": True}}
     v = res.get("violation")
     if v and v["key"].startswith("C16."):
         res["violation"] = {
